@@ -15,11 +15,86 @@ ffi: histories over several cffi.FFI objects and an out-of-line module FFI (type
      by structural description (aggregates by identity).
 """
 import json
+import os
+import re
 
 from lib import vlib
+from lib.py2coq import Untranslatable
 from lib.vlib import cn, cz, clist, cpair
 
 ID = "C27"
+
+# ---------------------------------------------------------------- regeneration of coq/C27/Gen.v
+
+GEN = os.path.join(vlib.COQ, "C27", "Gen.v")
+KEYSRC = {
+    "ptypes": "KStatic", '"void"': "KStatic", "ctitem": "KItem", "ctptr": "KPtr", "(void*)length": "KLen",
+    "fresult": "KResult", "(constvoid*)(Py_ssize_t)((fabi<<1)|!!ellipsis)": "KFlags",
+    "(constvoid*)(Py_ssize_t)(funcbuilder.nargs)": "KNargs",
+    "PyTuple_GET_ITEM(fct->ct_stuff,2+i)": "KArgsStored", "PyTuple_GET_ITEM(fargs,i)": "KArgsRaw",
+}
+CONSTRUCTORS = [   # (Gen name, regex of the function header, texts that must occur: what the new type stores)
+    ("primitive_key", r"static PyObject \*new_primitive_type\(const char \*name\)", []),
+    ("pointer_key", r"static PyObject \*new_pointer_type\(CTypeDescrObject \*ctitem\)",
+     ["td = ctypedescr_new_on_top(ctitem,"]),
+    ("array_key", r"new_array_type\(CTypeDescrObject \*ctptr, Py_ssize_t length\)",
+     ["ctitem = ctptr->ct_itemdescr;", "td = ctypedescr_new_on_top(ctitem,", "td->ct_stuff = (PyObject *)ctptr;"]),
+    ("void_key", r"static PyObject \*new_void_type\(void\)", []),
+    ("function_key", r"static PyObject \*new_function_type\(PyObject \*fargs,[^{;]*\)",
+     ["PyTuple_SET_ITEM(fct->ct_stuff, 1, (PyObject *)fresult);",
+      "if (((CTypeDescrObject *)o)->ct_flags & CT_ARRAY)\n            o = ((CTypeDescrObject *)o)->ct_stuff;",
+      "PyTuple_SET_ITEM(fct->ct_stuff, 2 + i, o);"]),
+]
+
+
+def translate_key_recipes(repo):
+    from props import c29
+    try:
+        raw = open(os.path.join(repo, "src", "c", "_cffi_backend.c")).read()
+    except OSError as e:
+        raise Untranslatable(str(e))
+    text = c29._strip_comments(raw)
+    defs = []
+    for name, header, must in CONSTRUCTORS:
+        ms = list(re.finditer(header + r"\s*\{", text))
+        if len(ms) != 1:
+            raise Untranslatable("%s: function header found %d times" % (name, len(ms)))
+        end = text.find("\n}\n", ms[0].end())
+        if end < 0:
+            raise Untranslatable("%s: end of function not found" % name)
+        body = text[ms[0].end():end]
+        for m_ in must:
+            if re.sub(r"\s+", " ", m_) not in re.sub(r"\s+", " ", body):
+                raise Untranslatable("%s: the new type no longer stores its children as modelled (%r missing)"
+                                     % (name, m_))
+        calls = re.findall(r"get_unique_type\(\s*\w+\s*,\s*unique_key\s*,\s*([^;]+)\);", body)
+        if len(calls) != 1:
+            raise Untranslatable("%s: expected one get_unique_type(..., unique_key, N) call" % name)
+        n = re.sub(r"\s+", "", calls[0])
+        slots = {}
+        for idx, expr in re.findall(r"unique_key\[([^\]]+)\]\s*=\s*([^;]+);", body):
+            idx, expr = re.sub(r"\s+", "", idx), re.sub(r"\s+", "", expr)
+            if expr not in KEYSRC:
+                raise Untranslatable("%s: unique_key[%s] = %s is outside the known key sources" % (name, idx, expr))
+            pos = {"0": 0, "1": 1, "2": 2, "3+i": 3}.get(idx)
+            if pos is None or pos in slots:
+                raise Untranslatable("%s: unexpected key index %r" % (name, idx))
+            slots[pos] = KEYSRC[expr]
+        length = {"1": 1, "2": 2, "3+funcbuilder.nargs": 4}.get(n)
+        if length is None:
+            raise Untranslatable("%s: unexpected key length %r" % (name, n))
+        if sorted(slots) != list(range(len(slots))):
+            raise Untranslatable("%s: key slots %r are not contiguous" % (name, sorted(slots)))
+        defs.append("Definition %s : list ksrc := [ %s ]." % (
+            name, "; ".join(slots[i] for i in range(min(length, len(slots))))))
+    head = open(GEN + ".snapshot").read().split("Definition primitive_key")[0]
+    return head + "\n".join(defs) + "\n"
+
+
+def regen(ctx):
+    from props import c35
+    c35.regen_file(ctx, GEN, translate_key_recipes)
+
 
 PRIM_NAMES = ["char", "short", "int", "long", "long long", "signed char", "unsigned char", "unsigned short",
               "unsigned int", "unsigned long", "unsigned long long", "float", "double", "long double", "_Bool",
@@ -549,6 +624,8 @@ def run(ctx):
         "Python-side model.global_cache (WeakValueDictionary keyed by (constructor, child ctypes)) is exercised by "
         "the ffi-level histories (predicate only), not modelled",
         "single-threaded (GIL build); the free-threaded build's unique_cache_lock is out of scope"]
+    from props import c29
+    c29.settle_obligations(ctx, "C27", GEN, translate_key_recipes)
     evaluate(ctx, generate(ctx))
 
 
